@@ -344,3 +344,216 @@ Example C03_why_a_byte_must_follow :
      ~ reads_ok ReadProgDemo.cx_payload [200;200]%nat outs).
 Proof. exact ReadProgDemo.glued_eof_counterexample. Qed.
 Print Assumptions C03_why_a_byte_must_follow.
+
+(* ============================================================================================ *)
+(* Zero-length reads (proofs in Proofs/ZeroReadP.v).  Read(p) with len(p) = 0 is a legal        *)
+(* io.Reader call; the model follows Go: bufio.Reader.Read returns (0, nil) when bytes are      *)
+(* buffered, else (0, b.readErr()), without touching the transport; messageReader.Read passes   *)
+(* b[:0] down when 0 < readRemaining and advances frames / reports io.EOF as usual otherwise.   *)
+(* ============================================================================================ *)
+Require Import WS.Proofs.ZeroReadP.
+From RecordUpdate Require Import RecordSet.
+Import RecordSetNotations.
+
+(* bufio: a zero-length read returns no byte and never changes the transport script, the buffer,
+   the logical stream; at most the deferred error is reported (and cleared) *)
+Theorem C03_zero_read_bufio_untouched :
+  forall b d e b', br_read 0 b = (d, e, b') ->
+    d = [] /\ src b' = src b /\ pending b' = pending b /\ bbuf b' = bbuf b /\ bsize b' = bsize b /\
+    (e = None -> b' = b) /\
+    (forall k, e = Some k -> bbuf b = [] /\ berr b = Some k /\ berr b' = None).
+Proof. exact br_read_zero_untouched. Qed.
+Print Assumptions C03_zero_read_bufio_untouched.
+
+Theorem C03_zero_read_bufio_noop :
+  forall b, binv b -> pending b <> [] -> br_read 0 b = ([], None, b).
+Proof. exact br_read_zero_binv. Qed.
+Print Assumptions C03_zero_read_bufio_noop.
+
+(* messageReader.Read(p[:0]) inside a frame: the exact result.  [zero_err s] = the error pending
+   in bufio behind an empty buffer, mapped as Go maps it (io.EOF -> unexpected EOF while payload
+   is owed); [zero_st c s] = s with that error recorded ... *)
+Theorem C03_zero_read_inframe :
+  forall c s, rerror s = None -> 0 < rem s ->
+    reader_read c 0 s = ([], zero_err s, zero_st c s).
+Proof. exact reader_read_zero_inframe. Qed.
+Print Assumptions C03_zero_read_inframe.
+
+(* ... i.e. only [br] (of it only the deferred error), [mpos] (server only, normalised modulo 4:
+   maskBytes returns pos & 3) and [rerror] may differ; the unmasking position is unchanged *)
+Theorem C03_zero_read_inframe_frame :
+  forall c s, let s' := zero_st c s in
+    rem s' = rem s /\ rkey s' = rkey s /\ rfin s' = rfin s /\ rlen s' = rlen s /\
+    rlimit s' = rlimit s /\ errcount s' = errcount s /\ rdecomp s' = rdecomp s /\ cur s' = cur s /\
+    nextid s' = nextid s /\ opidx s' = opidx s /\ hcount s' = hcount s /\ hlog s' = hlog s /\
+    wlog s' = wlog s /\ closesent s' = closesent s /\ outoffuel s' = outoffuel s /\
+    bsize (br s') = bsize (br s) /\ bbuf (br s') = bbuf (br s) /\ src (br s') = src (br s) /\
+    pending (br s') = pending (br s) /\
+    mpos s' mod 4 = mpos s mod 4 /\ (mpos s < 4 -> mpos s' = mpos s) /\
+    (forall l, unmask c s' l = unmask c s l) /\
+    rerror s' = zero_err s.
+Proof. exact zero_st_frame. Qed.
+Print Assumptions C03_zero_read_inframe_frame.
+
+(* the usual case -- no error pending behind an empty buffer: (0, nil) and NOTHING changes *)
+Theorem C03_zero_read_inframe_noop :
+  forall c s, rerror s = None -> 0 < rem s ->
+    bbuf (br s) <> [] \/ berr (br s) = None -> mpos s < 4 ->
+    reader_read c 0 s = ([], None, s).
+Proof. exact reader_read_zero_noop. Qed.
+Print Assumptions C03_zero_read_inframe_noop.
+
+Theorem C03_zero_read_inframe_noop_stream :
+  forall c s, rerror s = None -> 0 < rem s -> binv (br s) -> pending (br s) <> [] -> mpos s < 4 ->
+    reader_read c 0 s = ([], None, s).
+Proof. exact reader_read_zero_noop_binv. Qed.
+Print Assumptions C03_zero_read_inframe_noop_stream.
+
+(* [mpos s < 4] holds in every reachable state *)
+Theorem C03_mask_position_in_range :
+  forall inflate c b ops, mpos (snd (run_ops inflate c (init_rst b) ops)) < 4.
+Proof. exact reachable_mpos_ok. Qed.
+Print Assumptions C03_mask_position_in_range.
+
+(* the buffer hypothesis is forced: a pending io.EOF is reported by the zero-length read, as
+   "unexpected EOF" since payload is still owed (Go: b.readErr(), then the EOF mapping) *)
+Example C03_zero_read_reports_pending_error :
+  let b := {| bsize := 16; bbuf := []; berr := Some EEOF;
+              src := {| chunks := []; fault := EEOF; glued := false |} |} in
+  let c := {| server := true; negotiated := false; custom_handlers := false;
+              handler_fail := []; caps := [] |} in
+  let s := init_rst b <| rem := 5 |> <| cur := Some 0%nat |> in
+  binv b /\ rerror s = None /\ 0 < rem s /\ mpos s < 4 /\
+  reader_read c 0 s = ([], Some unexpected_eof, s <| br := zero_br b |> <| rerror := Some unexpected_eof |>).
+Proof. exact zero_read_reports_pending_error. Qed.
+Print Assumptions C03_zero_read_reports_pending_error.
+
+(* at the end of a frame a zero-length Read does what every Read does *)
+Theorem C03_zero_read_eof :
+  forall c s, rerror s = None -> rem s = 0 -> rfin s = true ->
+    reader_read c 0 s = ([], Some RIoEOF, s <| cur := None |>).
+Proof. exact reader_read_zero_eof. Qed.
+Print Assumptions C03_zero_read_eof.
+
+(* Transparency, exact, for ANY stream and ANY state: after Read(p[:0]) a Read of any size returns
+   what it would have returned without it and leaves the same state *)
+Theorem C03_zero_read_transparent :
+  forall c s x0 e0 s0, binv (br s) -> reader_read c 0 s = (x0, e0, s0) ->
+    x0 = [] /\ forall m, reader_read c m s0 = reader_read c m s.
+Proof. exact reader_read_zero_transparent. Qed.
+Print Assumptions C03_zero_read_transparent.
+
+(* the same on the API level (any handlers); the call counter is bumped by every call *)
+Theorem C03_zero_read_transparent_api :
+  forall inflate c s r0 s0, binv (br s) -> rstep inflate c s (ORead 0) = (r0, s0) ->
+    (exists e0, r0 = RData [] e0) /\ opidx s0 = S (opidx s) /\
+    forall m, rstep inflate c (s0 <| opidx := opidx s |>) (ORead m) = rstep inflate c s (ORead m).
+Proof. exact rstep_zero_read_then. Qed.
+Print Assumptions C03_zero_read_transparent_api.
+
+(* Plans: [l] = any list of Read sizes, zeros anywhere; [filter nz l] = the same plan without the
+   zero-length reads; [keep_nz l outs] = the outputs of the non-zero-length reads.  These are
+   exactly the outputs of the plan without the zero-length reads; the final states cannot be told
+   apart by any further Read ([read_equiv]). *)
+Theorem C03_zero_reads_do_not_disturb :
+  forall inflate c, custom_handlers c = false ->
+  forall l s outs s', binv (br s) -> outoffuel s = false ->
+    run_ops inflate c s (map ORead l) = (outs, s') ->
+    length outs = length l /\
+    Forall2 (fun m r => exists d e, r = RData d e /\ (m = 0%nat -> d = [])) l outs /\
+    exists s2, run_ops inflate c s (map ORead (filter nz l)) = (keep_nz l outs, s2) /\
+               read_equiv inflate c s' s2.
+Proof. exact zero_reads_do_not_disturb. Qed.
+Print Assumptions C03_zero_reads_do_not_disturb.
+
+Theorem C03_next_reader_then_any_reads_exact :
+  forall inflate c b l r0 outs s',
+    custom_handlers c = false -> binv b ->
+    run_ops inflate c (init_rst b) (ONext :: map ORead l) = (r0 :: outs, s') -> r0 <> RPanic ->
+    exists s2, run_ops inflate c (init_rst b) (ONext :: map ORead (filter nz l)) = (r0 :: keep_nz l outs, s2) /\
+               read_equiv inflate c s' s2.
+Proof. exact next_reader_then_any_reads_exact. Qed.
+Print Assumptions C03_next_reader_then_any_reads_exact.
+
+(* Conformant streams: C03_next_reader_then_reads without [Forall (fun m => 0 < m) l].
+   [reads_ok0] = [reads_ok] except that a Read with len(p) = 0 returns (0, nil) while bytes of the
+   message remain. *)
+Theorem C03_next_reader_then_any_reads :
+  forall inflate c b fs extra l ty cc d rest,
+    custom_handlers c = false -> binv b -> (125 <= bsize b)%nat ->
+    conformant_frames c fs -> pending b = encode_frames fs ++ extra ->
+    (trailer fs = [] -> extra <> []) ->
+    data_msgs (events_of fs) = (ty, cc, d) :: rest ->
+    exists outs s',
+      run_ops inflate c (init_rst b) (ONext :: map ORead l) = (RNext ty None :: outs, s') /\
+      reads_ok0 d l outs /\
+      reads_ok d (filter nz l) (keep_nz l outs) /\
+      flat_map rdata (keep_nz l outs) = flat_map rdata outs /\
+      Forall2 (fun m r => m = 0%nat -> r = RData [] None \/ r = RData [] (Some RIoEOF)) l outs /\
+      reached fs extra s'.
+Proof. exact next_reader_then_any_reads. Qed.
+Print Assumptions C03_next_reader_then_any_reads.
+
+Theorem C03_read_plan_meaning_zero :
+  (forall l d outs, reads_ok d l outs -> reads_ok0 d l outs) /\
+  (forall l d outs, Forall (fun m => (0 < m)%nat) l -> reads_ok0 d l outs -> reads_ok d l outs) /\
+  (forall l d outs, reads_ok0 d l outs -> reads_ok d (filter nz l) (keep_nz l outs)).
+Proof. exact (conj reads_ok_ok0 (conj reads_ok0_pos reads_ok0_keep_nz)). Qed.
+Print Assumptions C03_read_plan_meaning_zero.
+
+(* whole programs, NextReader + Reads of any sizes (zero included) and ReadMessage mixed:
+   C03_any_mixed_program without [Forall call_pos cs] *)
+Theorem C03_any_mixed_program_zero :
+  forall inflate c b fs extra cs,
+    custom_handlers c = false -> binv b -> (125 <= bsize b)%nat ->
+    conformant_frames c fs -> pending b = encode_frames fs ++ extra ->
+    (trailer fs = [] -> extra <> []) ->
+    (length cs <= length (data_msgs (events_of fs)))%nat ->
+    exists outs s',
+      run_ops inflate c (init_rst b) (flat_map ops_of_call cs) = (outs, s') /\
+      mixed_ok0 (data_msgs (events_of fs)) cs outs /\ reached fs extra s'.
+Proof. exact reader_api_mixed0. Qed.
+Print Assumptions C03_any_mixed_program_zero.
+
+Example C03_zero_reads_run :
+  let run l := fst (run_ops (fun _ => None) ReadProgDemo.ex_cfg (init_rst (ReadProgDemo.ex_b 5 EOther true))
+                      (ONext :: map ORead l)) in
+  run [0;2;0;0;1;100;0;7;0]%nat =
+    [RNext 1 None; RData [] None; RData [72;101] None; RData [] None; RData [] None; RData [108] None;
+     RData [108] None; RData [] None; RData [111] None; RData [] (Some RIoEOF)] /\
+  run [2;1;100;7]%nat =
+    [RNext 1 None; RData [72;101] None; RData [108] None; RData [108] None; RData [111] None].
+Proof. exact zero_reads_demo. Qed.
+Print Assumptions C03_zero_reads_run.
+
+(* the default-handler hypothesis of C03_zero_reads_do_not_disturb is forced for its state part:
+   recording handlers log the API-call index, which inserted calls shift (outputs still agree) *)
+Example C03_zero_reads_shift_handler_log :
+  let cH := {| server := true; negotiated := false; custom_handlers := true;
+               handler_fail := []; caps := [] |} in
+  let inflate := fun _ : bytes => @None bytes in
+  let r0 := run_ops inflate cH (init_rst (ReadProgDemo.ex_b 5 EOther true)) (ONext :: map ORead [0;3;1]%nat) in
+  let r1 := run_ops inflate cH (init_rst (ReadProgDemo.ex_b 5 EOther true)) (ONext :: map ORead [3;1]%nat) in
+  fst r0 = [RNext 1 None; RData [] None; RData [72;101;108] None; RData [108] None] /\
+  fst r1 = [RNext 1 None; RData [72;101;108] None; RData [108] None] /\
+  hlog (snd r0) = [HPing 3 [112;49]] /\ hlog (snd r1) = [HPing 2 [112;49]] /\
+  ~ read_equiv inflate cH (snd r0) (snd r1).
+Proof. exact zero_reads_shift_handler_log. Qed.
+Print Assumptions C03_zero_reads_shift_handler_log.
+
+(* transparency concerns the Reads that follow, not NextReader: a zero-length Read that reported
+   the error pending in bufio leaves "unexpected EOF" in c.readErr, NextReader alone would have
+   met a plain io.EOF while skipping the frame remainder (as in Go) *)
+Example C03_zero_read_then_next_reader_differs :
+  let b := {| bsize := 16; bbuf := []; berr := Some EEOF;
+              src := {| chunks := []; fault := EEOF; glued := false |} |} in
+  let s := init_rst b <| rem := 5 |> <| cur := Some 0%nat |> in
+  let inflate := fun _ : bytes => @None bytes in
+  fst (run_ops inflate ReadProgDemo.ex_cfg s [ORead 0; ONext]) =
+    [RData [] (Some unexpected_eof); RNext 0 (Some unexpected_eof)] /\
+  fst (run_ops inflate ReadProgDemo.ex_cfg s [ONext]) = [RNext 0 (Some RIoEOF)] /\
+  fst (run_ops inflate ReadProgDemo.ex_cfg s [ORead 0; ORead 3]) =
+    [RData [] (Some unexpected_eof); RData [] (Some unexpected_eof)] /\
+  fst (run_ops inflate ReadProgDemo.ex_cfg s [ORead 3]) = [RData [] (Some unexpected_eof)].
+Proof. exact zero_read_then_next_reader_differs. Qed.
+Print Assumptions C03_zero_read_then_next_reader_differs.
